@@ -109,6 +109,9 @@ impl HeaderTagHeader {
 
 impl Header for HeaderTagHeader {
     fn payload_len(&self) -> usize {
+        // Same as for the tags of the boot information: a corrupt size must
+        // lead to the same controlled panic in all build profiles.
+        assert!(self.size as usize >= mem::size_of::<Self>());
         self.size as usize - mem::size_of::<Self>()
     }
 
